@@ -193,15 +193,15 @@ class CorrelationFunction(DFunction, UnitsManaged):
                         
                     elif ftype == "Underdamped":
                         
-                        self._make_underdamped(params, values=values)
+                        self._make_underdamped(prms, values=values)
                         
                     elif ftype == "B777":
                         
-                        self._make_B777(params, values=values)
+                        self._make_B777(prms, values=values)
                         
                     elif ftype == "CP29":
                         
-                        self._make_CP29_spectral_density(params, values=values)
+                        self._make_CP29_spectral_density(prms, values=values)
             
                     elif ftype == "Value-defined":
             
@@ -380,17 +380,17 @@ class CorrelationFunction(DFunction, UnitsManaged):
         temperature = params["T"]
         ctime = params["gamma"]
         
-        # use the units in which params was defined
+        # params are already in internal units
         lamb = params["reorg"]
         time = self.axis #.data
 
         if values is not None:
             cfce = values
         else:
-            # Make it via SpectralDensity
-            fa = SpectralDensity(time, params)
-            
-            cf = fa.get_CorrelationFunction(temperature=temperature)
+            # Make it via SpectralDensity (params are in internal units)
+            with energy_units("int"):
+                fa = SpectralDensity(time, params)
+                cf = fa.get_CorrelationFunction(temperature=temperature)
             
             cfce = cf.data
 
@@ -412,18 +412,17 @@ class CorrelationFunction(DFunction, UnitsManaged):
         temperature = params["T"]
         ctime = params["gamma"]
         
-        # use the units in which params was defined
-        lamb = self.manager.iu_energy(params["reorg"],
-                                      units=self.energy_units)
+        # params are already in internal units
+        lamb = params["reorg"]
         time = self.axis #.data
 
         if values is not None:
             cfce = values
         else:
-            # Make it via SpectralDensity
-            fa = SpectralDensity(time, params)
-            
-            cf = fa.get_CorrelationFunction(temperature=temperature)
+            # Make it via SpectralDensity (params are in internal units)
+            with energy_units("int"):
+                fa = SpectralDensity(time, params)
+                cf = fa.get_CorrelationFunction(temperature=temperature)
             
             cfce = cf.data
             
@@ -444,20 +443,17 @@ class CorrelationFunction(DFunction, UnitsManaged):
         ctime = params["gamma"]
         #omega = params["freq"]
         
-        # use the units in which params was defined
-        lamb = self.manager.iu_energy(params["reorg"],
-                                      units=self.energy_units)
-        print('correlation function lamb in int units %f' %lamb)
+        # params are already in internal units
+        lamb = params["reorg"]
         time = self.axis #.data
 
         if values is not None:
             cfce = values
         else:
-            # Make it via SpectralDensity
-            fa = SpectralDensity(time, params)
-            
-
-            cf = fa.get_CorrelationFunction(temperature=temperature)
+            # Make it via SpectralDensity (params are in internal units)
+            with energy_units("int"):
+                fa = SpectralDensity(time, params)
+                cf = fa.get_CorrelationFunction(temperature=temperature)
             
             cfce = cf.data
 
